@@ -351,8 +351,10 @@ def itsObservesQuery (prop func : String) : Bool :=
   | "C08" => func == "isMessageExecuted" || func == "transferWithDataLock"
   | "C13" => func == "trustedAddress"
   | "C14" => ["canonicalInterchainTokenId", "linkedTokenId", "interchainTokenId", "invalidTokenManagerAddress",
-              "deployedTokenManager", "registeredTokenIdentifier", "chainNameHash"].contains func
-  | "C18" => func == "isMessageExecuted" || func == "invalidTokenManagerAddress"
+              "deployedTokenManager", "registeredTokenIdentifier", "chainNameHash",
+              "getImplementationTypeAndTokenIdentifier", "interchainTokenId"].contains func
+  | "C18" => ["isMessageExecuted", "invalidTokenManagerAddress", "registeredTokenIdentifier", "tokenIdentifier",
+              "getImplementationTypeAndTokenIdentifier"].contains func
   | "C20" => func == "isPaused" || func == "trustedAddress" || func == "flowLimit"
   | _ => false
 
